@@ -197,7 +197,7 @@ func (e Error) Error() string {
 type NumHash struct {
 	sync.Mutex
 	err      error
-	once     sync.Once
+	started  bool // a head listener (ws or http poll) is running
 	maxreads int
 	nreads   int
 	Num      eth.Uint64 `json:"number"`
@@ -209,6 +209,18 @@ func (nh *NumHash) error(err error) {
 	nh.nreads = 0
 	nh.err = err
 	nh.Unlock()
+}
+
+// Runs f unless a listener has been started
+// and has not failed since.
+func (nh *NumHash) start(f func()) {
+	nh.Lock()
+	started := nh.started
+	nh.started = true
+	nh.Unlock()
+	if !started {
+		f()
+	}
 }
 
 func (nh *NumHash) update(n eth.Uint64, h []byte) {
@@ -234,7 +246,7 @@ func (nh *NumHash) get(ctx context.Context, n uint64) (uint64, []byte, bool) {
 			slog.DebugContext(ctx, "rpc connection error", "error", err)
 		}
 		nh.err = nil
-		nh.once = sync.Once{}
+		nh.started = false
 		return 0, nil, false
 	}
 
@@ -349,7 +361,7 @@ func (c *Client) httpPoll(ctx context.Context, url string) {
 // rather than using the cached value,
 // bypassing the caching mechanism.
 func (c *Client) Latest(ctx context.Context, url string, n uint64) (uint64, []byte, error) {
-	c.lcache.once.Do(func() {
+	c.lcache.start(func() {
 		switch {
 		case len(c.wsurl) > 0:
 			slog.DebugContext(ctx, "jrpc2 ws listening")
